@@ -256,11 +256,14 @@ def shuffle_modes(ctx, n=None):
         d = os.path.join(ctx.tmp, "sm%05d" % i)
         worlds.materialize(w, d)
         base = dict(wo, verbose=1, shuffle_seed=seed, argseed=argseed, _timeout=90)
+        # (every process with another hash seed - the layer subprocesses of the -j run each with a random one: the order
+        # for a seed is the same in every process of every run)
+        hs = lambda v: {"_env": {"PYTHONHASHSEED": v}}  # noqa: E731
         res = {
-            "list1": worlds.run_real(w, dict(base, list=True), d),
-            "listj": worlds.run_real(w, dict(base, list=True, processes=j), d),
-            "seq": worlds.run_real(w, dict(base), d),
-            "par": worlds.run_real(w, dict(base, processes=j), d),
+            "list1": worlds.run_real(w, dict(base, list=True, **hs("1")), d),
+            "listj": worlds.run_real(w, dict(base, list=True, processes=j, **hs("2")), d),
+            "seq": worlds.run_real(w, dict(base, **hs("3")), d),
+            "par": worlds.run_real(w, dict(base, processes=j, **hs("random")), d),
             # the same seed with the unit tests filtered out: the order inside the other layers must not change
             "listf": worlds.run_real(w, dict(base, list=True, non_unit=True), d),
         }
